@@ -322,7 +322,7 @@ class ParseMCNPCell:
         '''Parse the arguments of the TRCL and *TRCL keywords.'''
         trcl_params = []
         while kw_list and kw_list[-1][0] in '0123456789.+-':
-            trcl_params.append(kw_list.pop())
+            trcl_params.append(float(kw_list.pop()))
         # now handle the case where the number of the
         # transformation was given instead of the transformation
         # parameters
@@ -336,6 +336,9 @@ class ParseMCNPCell:
                             0., 1., 0.,
                             0., 0., 1.]
         elif '*' in elt:
-            trcl_params = [float(x) for x in trcl_params]
-            trcl_params[3:] = list(map(to_cos, trcl_params[3:12]))
+            trcl_params[3:12] = list(map(to_cos, trcl_params[3:12]))
+            trcl_params = normalize_transform(trcl_params)
+        elif trcl_params:
+            # this is the case where the transform parameters were given inline
+            trcl_params = normalize_transform(trcl_params)
         return tuple(trcl_params)
